@@ -3,6 +3,7 @@ package lib
 import (
 	"context"
 	"crypto/x509"
+	"encoding/json"
 	"fmt"
 	"sync"
 	"time"
@@ -53,14 +54,48 @@ func (OKRev) ValidateContext(ctx context.Context, o revocation.ValidateContextOp
 
 // OCIPolicy builds a one-statement OCI trust policy document.
 func OCIPolicy(sv trustpolicy.SignatureVerification, stores []string, identities []string) *trustpolicy.OCIDocument {
-	return &trustpolicy.OCIDocument{Version: "1.0", TrustPolicies: []trustpolicy.OCITrustPolicy{{
-		Name: "p", SignatureVerification: sv, TrustStores: stores, TrustedIdentities: identities, RegistryScopes: []string{"*"}}}}
+	// the document is READ from JSON text written with the member names of the trust policy specification - the way a
+	// policy file reaches the library - not assembled from the library's own Go structs
+	text := fmt.Sprintf(`{"version":"1.0","trustPolicies":[{"name":"p","registryScopes":["*"],"signatureVerification":%s%s%s}]}`, svJSONText(sv), member("trustStores", stores), member("trustedIdentities", identities))
+	var d trustpolicy.OCIDocument
+	if err := json.Unmarshal([]byte(text), &d); err != nil {
+		panic("harness bug: policy text: " + err.Error() + " " + text)
+	}
+	return &d
+}
+
+func member(name string, vals []string) string {
+	if vals == nil {
+		return ""
+	}
+	b, _ := json.Marshal(vals)
+	return fmt.Sprintf(`,%q:%s`, name, b)
+}
+
+func svJSONText(sv trustpolicy.SignatureVerification) string {
+	out := fmt.Sprintf(`{"level":%q`, sv.VerificationLevel)
+	if sv.Override != nil {
+		m := map[string]string{}
+		for k, v := range sv.Override {
+			m[string(k)] = string(v)
+		}
+		b, _ := json.Marshal(m)
+		out += `,"override":` + string(b)
+	}
+	if sv.VerifyTimestamp != "" {
+		out += fmt.Sprintf(`,"verifyTimestamp":%q`, string(sv.VerifyTimestamp))
+	}
+	return out + "}"
 }
 
 // BlobPolicy builds a one-statement global blob trust policy document.
 func BlobPolicy(sv trustpolicy.SignatureVerification, stores []string, identities []string) *trustpolicy.BlobDocument {
-	return &trustpolicy.BlobDocument{Version: "1.0", TrustPolicies: []trustpolicy.BlobTrustPolicy{{
-		Name: "p", SignatureVerification: sv, TrustStores: stores, TrustedIdentities: identities, GlobalPolicy: true}}}
+	text := fmt.Sprintf(`{"version":"1.0","trustPolicies":[{"name":"p","globalPolicy":true,"signatureVerification":%s%s%s}]}`, svJSONText(sv), member("trustStores", stores), member("trustedIdentities", identities))
+	var d trustpolicy.BlobDocument
+	if err := json.Unmarshal([]byte(text), &d); err != nil {
+		panic("harness bug: policy text: " + err.Error() + " " + text)
+	}
+	return &d
 }
 
 // LevelMap is one of the 24 reachable enforcement maps.
